@@ -104,6 +104,7 @@ def check(pm: ProgramModel, ctx: Ctx) -> None:
     from ..codec import stress_trees
     cd.report("VOC", "stress-shapes", cd.roundtrip(ctc_model(mb, stress_trees(mb))),
               "constraint shapes that stress normal forms", ("constraint", "constraint-count"))
+    cd.large(mb, fragment_ops, mixed=False, cardinal=False)
     cd.finish_unowned()
     ctx.analysed["C07:compositions"] = cd.n
     ctx.floor("C07", "obligations", len(ctx.obligations), 35)
